@@ -500,52 +500,79 @@ def rule_align(chk, cls):
 
 
 def rule_pickle(chk, cls):
+    """pickling decided on a model array (E8, lowered Cython): __reduce__ hands out, for every property, a record {name, type, data: the whole array, default, stride} and for
+    every constant {name, data}, under the keys that __setstate__ reads; __setstate__ replays every record through add_property / add_constant (whose parameters the record
+    keys are) and counts the real particles from the pickled tags"""
+    from verif_static import emit as EM, absint as AI
     meths = M.methods(cls)
-    red = meths.get('__reduce__')
-    sst = meths.get('__setstate__')
-    addp = meths.get('add_property')
-    addc = meths.get('add_constant')
+    red, sst, addp, addc = meths.get('__reduce__'), meths.get('__setstate__'), meths.get('add_property'), meths.get('add_constant')
     if not (red and sst and addp and addc):
         raise AnalysisError('pickle anchors vanished')
-    keys = set()
-    for a in ast.walk(red):
-        if isinstance(a, ast.Assign) and isinstance(a.targets[0], ast.Subscript) and U(a.targets[0].value) == 'pinfo':
-            k = M.const_str(a.targets[0].slice)
-            if k:
-                keys.add(k)
-    params = set(M.arg_names(addp)) - {'self'}
-    chk.decide(keys <= params and {'name', 'type', 'data', 'default', 'stride'} <= keys, 'pickle-table', 'property-record',
-               node=red, file=PA, func='__reduce__',
-               detail_bad='keys pickled per property %s vs add_property parameters %s (name,type,data,default,stride required)' % (sorted(keys), sorted(params)),
-               detail_ok='pickled keys %s are add_property parameters' % sorted(keys))
-    vals = {}
-    for a in ast.walk(red):
-        if isinstance(a, ast.Assign) and isinstance(a.targets[0], ast.Subscript) and U(a.targets[0].value) == 'pinfo':
-            vals[M.const_str(a.targets[0].slice)] = U(a.value)
-    ploop = [l for l in ast.walk(red) if isinstance(l, ast.For) and U(l.iter) == 'self.properties.items()']
-    if ploop and isinstance(ploop[0].target, ast.Tuple):
-        kv, av = [U(e) for e in ploop[0].target.elts]
-        want = {'name': kv, 'type': av + '.get_c_type()', 'data': av + '.get_npy_array()',
-                'default': 'self.default_values[%s]' % kv, 'stride': 'self.stride.get(%s, 1)' % kv}
-        for k, w in sorted(want.items()):
-            chk.decide(vals.get(k) == w, 'pickle-table', 'record-value:' + k, node=red, file=PA, func='__reduce__',
-                       detail_bad='pickled %s is %s, expected %s (the whole array of the same property, ghosts/remote particles included)' % (k, vals.get(k), w),
-                       detail_ok=w)
-    else:
-        chk.violated('pickle-table', 'record-loop', node=red, file=PA, func='__reduce__', detail='properties are not pickled by iterating self.properties.items()')
-    ckeys = set()
-    for c in M.calls(red):
-        if M.call_name(c) == 'dict' and M.enclosing(c, (ast.For,)) is not None and 'constants' in U(M.enclosing(c, (ast.For,)).iter):
-            ckeys |= set(k.arg for k in c.keywords)
-    cparams = set(M.arg_names(addc)) - {'self'}
-    chk.decide(bool(ckeys) and ckeys <= cparams, 'pickle-table', 'constant-record', node=red, file=PA, func='__reduce__',
-               detail_bad='keys pickled per constant %s vs add_constant parameters %s' % (sorted(ckeys), sorted(cparams)),
-               detail_ok='pickled constant keys %s' % sorted(ckeys))
-    ok = any(M.call_name(c) == 'self.add_property' and any(k.arg is None for k in c.keywords) for c in M.calls(sst)) and \
-        any(M.call_name(c) == 'self.add_constant' for c in M.calls(sst))
-    chk.decide(ok, 'pickle-table', 'setstate-replays-records', node=sst, file=PA, func='__setstate__',
-               detail_bad='__setstate__ does not rebuild properties/constants through add_property/add_constant',
-               detail_ok='rebuilds through add_property(**record) / add_constant(**record)')
+    t = M.cy(PA)
+
+    class Tags(list):
+        def __eq__(self, other):
+            return ('tags==', other)
+
+        def __ne__(self, other):
+            return ('tags!=', other)
+        __hash__ = None
+    saved = AI.EXTERNAL_CALLS.get('numpy.sum')
+    AI.EXTERNAL_CALLS['numpy.sum'] = lambda i, a, k, n, e: ('count', a[0])
+    try:
+        it = EM.interpreter()
+        EM.model_module(it, '<pa>', t)
+
+        def carr(ty, data):
+            return EM.mock(get_c_type=lambda i, a, k, n, e: ty, get_npy_array=lambda i, a, k, n, e: data)
+        tags = Tags([0, 0, 2])
+        DATA = {'x': ('npy', 'x'), 'A': ('npy', 'A'), 'tag': tags}
+        src = EM.instance(it, '<pa>', 'ParticleArray', name='fluid', properties={'x': carr('double', DATA['x']), 'A': carr('int', DATA['A']), 'tag': carr('int', DATA['tag'])},
+                          default_values={'x': 1.5, 'A': 7, 'tag': 2}, stride={'A': 3}, constants={'c0': ('c', 0), 'k': ('c', 1)}, gpu=None, backend='cython')
+        res = EM.call(it, src, '__reduce__')
+        state = res[2] if isinstance(res, tuple) and len(res) == 3 else None
+        want_p = {'x': {'name': 'x', 'type': 'double', 'data': DATA['x'], 'default': 1.5, 'stride': 1}, 'A': {'name': 'A', 'type': 'int', 'data': DATA['A'], 'default': 7, 'stride': 3},
+                  'tag': {'name': 'tag', 'type': 'int', 'data': DATA['tag'], 'default': 2, 'stride': 1}}
+        params = set(M.arg_names(addp)) - {'self'}
+        cparams = set(M.arg_names(addc)) - {'self'}
+        okr = isinstance(state, dict) and state.get('name') == 'fluid' and isinstance(state.get('properties'), dict) and sorted(state['properties']) == sorted(want_p) and \
+            all(isinstance(state['properties'][k_], dict) and sorted(state['properties'][k_]) == sorted(want_p[k_]) and
+                all(state['properties'][k_][f_] is want_p[k_][f_] or (not isinstance(want_p[k_][f_], (list, tuple)) and state['properties'][k_][f_] == want_p[k_][f_]) for f_ in want_p[k_])
+                for k_ in want_p) and all(set(r_) <= params for r_ in state['properties'].values())
+        okc = okr and isinstance(state.get('constants'), dict) and sorted(state['constants']) == ['c0', 'k'] and \
+            all(isinstance(r_, dict) and set(r_) <= cparams and r_.get('name') == k_ and r_.get('data') == ('c', 0 if k_ == 'c0' else 1) for k_, r_ in state['constants'].items())
+        chk.decide(bool(okr), 'pickle-table', 'property-records', node=red, file=PA, func='__reduce__',
+                   detail_bad='a model array (x double default 1.5, A int default 7 stride 3, tag with default 2) is pickled as %r: expected, per property, name / type / data (the whole '
+                              'array of that property) / default / stride under add_property\'s parameter names' % (state.get('properties') if isinstance(state, dict) else state,),
+                   detail_ok='every property: name, type, whole data array, default, stride')
+        chk.decide(bool(okc), 'pickle-table', 'constant-records', node=red, file=PA, func='__reduce__',
+                   detail_bad='constants pickled as %r (expected {name, data} per constant)' % (state.get('constants') if isinstance(state, dict) else None,), detail_ok='every constant: name, data')
+        # replay
+        log = []
+        dst = EM.instance(it, '<pa>', 'ParticleArray', add_property=lambda i, a, k, n, e: log.append(('p', dict(k))), add_constant=lambda i, a, k, n, e: log.append(('c', dict(k))))
+        if isinstance(state, dict):
+            EM.call(it, dst, '__setstate__', state)
+        gotp = sorted((r_.get('name'), r_.get('type'), r_.get('default'), r_.get('stride')) for kd, r_ in log if kd == 'p')
+        gotc = sorted(r_.get('name') for kd, r_ in log if kd == 'c')
+        nr = dst.attrs.get('num_real_particles')
+        okn = isinstance(nr, tuple) and nr[0] == 'count' and isinstance(nr[1], tuple) and nr[1][0] == 'tags=='
+        if not okn and AI.unknown(nr):
+            kn = AI.key_of(nr).replace(' ', '')          # symbolic: sum(<the pickled tags> == Local)
+            okn = 'sum(' in kn and ('<Tags>==Local' in kn or 'Local==<Tags>' in kn)
+        oks = gotp == sorted((k_, v_['type'], v_['default'], v_['stride']) for k_, v_ in want_p.items()) and gotc == ['c0', 'k'] and dst.attrs.get('name') == 'fluid' and \
+            all(r_.get('data') is want_p[r_['name']]['data'] for kd, r_ in log if kd == 'p')
+        chk.decide(bool(oks), 'pickle-table', 'setstate-replays-records', node=sst, file=PA, func='__setstate__',
+                   detail_bad='__setstate__ on the pickled state of the model array re-creates properties %s and constants %s (name %r): every record must go through add_property / '
+                              'add_constant with what was pickled' % (gotp, gotc, dst.attrs.get('name')), detail_ok='every record replayed through add_property(**record) / add_constant(**record)')
+        chk.decide(bool(okn), 'pickle-table', 'setstate-counts-real-particles-from-the-tags', node=sst, file=PA, func='__setstate__',
+                   detail_bad='after __setstate__ num_real_particles is %r: it must be the number of pickled tags equal to Local' % (nr,), detail_ok='numpy.sum(tags == Local)')
+    except (AI.Unsupported, AI.Raised) as e:
+        chk.undecided('pickle-table', 'model-run', node=red, file=PA, func='__reduce__', detail='not interpretable on the model: %s' % e)
+    finally:
+        if saved is None:
+            AI.EXTERNAL_CALLS.pop('numpy.sum', None)
+        else:
+            AI.EXTERNAL_CALLS['numpy.sum'] = saved
 
 
 def rule_replicate(chk, cls):
@@ -1058,6 +1085,70 @@ def compact_(t):
     return U(t).replace(' ', '')
 
 
+def rule_indices_as_given(chk, cls, module):
+    """extract_particles copies the particles in the order the caller lists them (destination order is part of the contract: the callers pair the extracted particles with
+    per-particle offsets computed in the same order, and extracting [4, 1, 3] gives particles 4, 1, 3): the index array handed to copy_values is the `indices` argument itself
+    or a plain conversion of it (asarray / ravel / astype) - never sorted, made unique or passed through a set"""
+    fn0 = M.methods(cls).get('extract_particles')
+    if fn0 is None:
+        raise AnalysisError('ParticleArray.extract_particles vanished')
+    fn = M.inline_helpers(cls, fn0, keep=set(n_ for n_ in M.methods(cls) if not n_.startswith('_')), module=module)
+    M.set_parents(fn)
+    REORDER = ('unique', 'sort', 'sorted', 'set', 'argsort', 'frozenset', 'flip', 'flipud', 'roll')
+    PLAIN = ('asarray', 'array', 'ravel', 'astype', 'ascontiguousarray', 'LongArray', 'set_data', 'get_npy_array', 'isinstance', 'len')
+    bad = []
+    n = 0
+    # every value that reaches the index array: follow `indices` through the assignments of the function
+    tainted = set(['indices'])
+    changed = True
+    while changed:
+        changed = False
+        for a in ast.walk(fn):
+            if isinstance(a, ast.Assign) and len(a.targets) == 1 and isinstance(a.targets[0], ast.Name) and any(isinstance(x, ast.Name) and x.id in tainted for x in ast.walk(a.value)):
+                if a.targets[0].id not in tainted:
+                    tainted.add(a.targets[0].id)
+                    changed = True
+            if isinstance(a, ast.AnnAssign) and isinstance(a.target, ast.Name) and a.value is not None and any(isinstance(x, ast.Name) and x.id in tainted for x in ast.walk(a.value)):
+                if a.target.id not in tainted:
+                    tainted.add(a.target.id)
+                    changed = True
+            if isinstance(a, ast.Expr) and isinstance(a.value, ast.Call) and isinstance(a.value.func, ast.Attribute) and a.value.func.attr == 'set_data' and isinstance(a.value.func.value, ast.Name) \
+                    and any(isinstance(x, ast.Name) and x.id in tainted for x in ast.walk(a.value)):
+                if a.value.func.value.id not in tainted:
+                    tainted.add(a.value.func.value.id)
+                    changed = True
+    for c in M.calls(fn):
+        nm = (M.call_name(c) or '').split('.')[-1]
+        if nm in REORDER and any(isinstance(x, ast.Name) and x.id in tainted for a_ in list(c.args) + [k.value for k in c.keywords] for x in ast.walk(a_)):
+            bad.append('%s at line %d' % (U(c)[:60], getattr(c, 'src_lineno', c.lineno)))
+        if isinstance(c.func, ast.Attribute) and c.func.attr in ('sort',) and isinstance(c.func.value, ast.Name) and c.func.value.id in tainted:
+            bad.append('%s at line %d' % (U(c)[:60], getattr(c, 'src_lineno', c.lineno)))
+    cv = [c for c in M.calls(fn) if isinstance(c.func, ast.Attribute) and c.func.attr == 'copy_values' and c.args and isinstance(c.args[0], ast.Name) and c.args[0].id in tainted]
+    chk.decide(bool(cv) and not bad, 'whole-property-coverage', 'extract_particles:indices-used-as-given', node=fn0, file=PA, func='extract_particles',
+               detail_bad='%s: the particles are extracted in another order than asked for (or an index given twice only once) - callers that compute per-particle data in the order of '
+                          'their index list (offsets of ghost images, values to put into the extracted array) attach them to the wrong particles' % ('; '.join(bad) if bad else 'the index array passed to copy_values does not come from `indices`'),
+               detail_ok='indices converted (asarray / LongArray.set_data) and passed to copy_values unchanged')
+
+
+def rule_property_loops_complete(chk, cls):
+    """a loop over the properties of an array handles every property: it is not inside a try block whose handler swallows an exception raised for one property (a missing key,
+    say) - the loop would end there and the remaining properties stay untouched; a handler belongs inside the loop body"""
+    n = 0
+    for name, fn in sorted(M.methods(cls).items()):
+        M.set_parents(fn)
+        for loop in [l for l in ast.walk(fn) if isinstance(l, ast.For) and ('.properties' in U(l.iter) or 'prop_names' in U(l.iter))]:
+            tr = M.enclosing(loop, (ast.Try,))
+            if tr is None or not any(loop is x for st in tr.body for x in ast.walk(st)):
+                continue
+            n += 1
+            swallowing = [h for h in tr.handlers if not any(isinstance(x, ast.Raise) for x in ast.walk(h))]
+            chk.decide(not swallowing, 'whole-property-coverage', '%s:property-loop-inside-a-swallowing-try@%d' % (name, getattr(loop, 'src_lineno', loop.lineno)), node=loop, file=PA, func=name,
+                       detail_bad='the loop over the properties sits inside `try: ... except %s: pass`: the first property that raises ends the loop, the properties after it are not '
+                                  'handled (copy_properties: a source property the destination lacks stops the copy of all later shared properties)' % (U(swallowing[0].type) if swallowing and swallowing[0].type is not None else ''),
+                       detail_ok='handler re-raises')
+    chk.unit('property loops inside try blocks', n)
+
+
 def rule_count_from_data(chk, cls):
     """add_particles / add_property: where the number of particles is read off the length of the data given for a property, the length is divided by the stride of that
     same property (len(data) // stride): the data of a strided property holds stride values per particle"""
@@ -1209,6 +1300,8 @@ def main(chk):
     rule_count_from_data(chk, cls)
     rule_typed_creation(chk, cls)
     rule_removal_exits(chk, cls)
+    rule_indices_as_given(chk, cls, t)
+    rule_property_loops_complete(chk, cls)
     rule_initialize_model(chk)
     # align_particles keeps its index array a permutation (rule shared with C16, which relies on it after removals)
     import importlib.util
